@@ -132,11 +132,11 @@ class LoopAnalysis(object):
             for l in range(len(loop2) - 1):
                 if (node_names[0] == loop2[l] and
                         node_names[1] == loop2[l + 1]):
-                    current -= mesh_currents[n]
+                    current += mesh_currents[n]
                     break
                 elif (node_names[1] == loop2[l] and
                       node_names[0] == loop2[l + 1]):
-                    current += mesh_currents[n]
+                    current -= mesh_currents[n]
                     break
 
         return current
@@ -170,7 +170,7 @@ class LoopAnalysis(object):
             else:
                 current = self._add_mesh_currents(loop, loops, node_names,
                                                   mesh_currents)
-                v = -elt.cpt.voltage_equation(current, self.kind)
+                v = elt.cpt.voltage_equation(current, self.kind)
 
             is_reversed = node_names[0] == loop1[j] \
                 and node_names[1] == loop1[j + 1]
